@@ -6,10 +6,16 @@
                 B, noverflow, flags, nevacuate and iteration order.
    - Simple.v : layer 1, 2^B chains of 8-slot buckets without growth.  Agrees with the
                 real code on every API-level result.
-   The refinement theorems below are about Simple.v (hence _partial: the incremental
-   evacuation of Model.v is not covered by a proof); the nil-map theorems and the two
-   refutations are about Model.v. *)
-From LLGoV Require Import C06.Model C06.Simple C06.SimpleRun C06.Proofs.
+   - Grow.v   : layer 2, Simple.v plus growth as map.go does it: hashGrow (doubling and
+                same-size), old and current bucket arrays, evacuation of one old bucket into
+                its X / Y halves, growWork on assignment and deletion, nevacuate, lookups that
+                consult the old bucket while it is not evacuated; abstract in the hash, no
+                pointers.  Agrees with the real code on every API-level result.
+   The _partial theorems of Section Layer1 are about Simple.v; Section Layer2 proves the
+   refinement across growth for Grow.v (what is still not proved: iteration during growth
+   and the pointer-level details of Model.v, which are tied by correspondence only); the
+   nil-map theorems and the two refutations are about Model.v. *)
+From LLGoV Require Import C06.Model C06.Simple C06.SimpleRun C06.Proofs C06.Grow C06.GrowRun C06.GrowProofs.
 Local Open Scope N_scope.
 
 Section Layer1.
@@ -70,6 +76,88 @@ Print Assumptions count_is_live_entries_partial.
 Print Assumptions live_key_stored_once_partial.
 Print Assumptions nan_insert_always_adds_partial.
 Print Assumptions iter_quiescent_exactly_once_partial.
+
+Section Layer2.
+Variables (K V : Type) (eqb : K -> K -> bool) (hash : K -> N) (upd : bool).
+Hypothesis eqb_sym : forall a b, eqb a b = eqb b a.
+Hypothesis eqb_trans : forall a b c, eqb a b = true -> eqb b c = true -> eqb a c = true.
+Hypothesis hash_eqb : forall a b, eqb a b = true -> hash a = hash b.
+
+(* The invariant GI (GrowProofs.v) of a layer-2 map m:
+   - the current array has 2^B chains; chain i holds only cells whose key hashes to i under B
+     and whose tophash is the key's, and no two cells of a chain hold equal keys;
+   - while growing, the old array has 2^oldB entries and B = oldB (same-size) or oldB + 1;
+   - an old bucket j that is not evacuated holds only keys hashing to j under oldB, pairwise
+     different, and its destination chains j (and j + 2^oldB when doubling) of the current
+     array are still empty;
+   - every old bucket below nevacuate is evacuated.
+   So a live key is stored exactly once: in the old bucket its hash selects while that bucket
+   is not evacuated, else in the current bucket its hash selects - where lookups search. *)
+
+(* every reachable state satisfies the invariant (any initial B: make(map, hint)) *)
+Theorem reachable_invariant : forall b (ops : list (sop K V)),
+  GI K V eqb hash (gfinal K V eqb hash upd b ops).
+Proof. exact (reachable_GI K V eqb hash upd eqb_sym eqb_trans hash_eqb). Qed.
+
+(* starting a growth (doubling or same-size, whatever triggers it) changes no lookup result
+   and keeps the invariant *)
+Theorem grow_preserves_abs : forall m : gmap K V, GI K V eqb hash m -> old K V m = [] ->
+  GI K V eqb hash (hashGrow K V m) /\
+  forall k, glookup K V eqb hash (hashGrow K V m) k = glookup K V eqb hash m k.
+Proof. exact (grow_preserves K V eqb hash). Qed.
+
+(* evacuating any old bucket (followed by advanceEvacuationMark, which may end the growth)
+   changes no lookup result and keeps the invariant: every live key is still stored exactly once *)
+Theorem evacuate_preserves_abs : forall (m : gmap K V) (j : nat), GI K V eqb hash m -> old K V m <> [] ->
+  GI K V eqb hash (evacuate K V hash m j) /\
+  forall k, glookup K V eqb hash (evacuate K V hash m j) k = glookup K V eqb hash m k.
+Proof. exact (evacuate_preserves K V eqb hash hash_eqb). Qed.
+
+Theorem growWork_preserves_abs : forall (m : gmap K V) (k : K), GI K V eqb hash m -> old K V m <> [] ->
+  GI K V eqb hash (growWork K V hash m k) /\
+  forall k', glookup K V eqb hash (growWork K V hash m k) k' = glookup K V eqb hash m k'.
+Proof. exact (growWork_preserves K V eqb hash hash_eqb). Qed.
+
+(* every history of insert / update / delete / lookup / clear / len, from any initial size,
+   across any number of doubling and same-size growths with incremental evacuation, gives
+   operation by operation the results of the association-list specification *)
+Theorem hmap_refines_fmap : forall b (ops : list (sop K V)),
+  grun K V eqb hash upd (gempty K V b) ops = arun K V eqb [] ops.
+Proof.
+  intros. apply (grun_refines K V eqb hash upd eqb_sym eqb_trans hash_eqb). apply (R_fresh K V eqb hash).
+Qed.
+
+(* len = number of live entries, live keys pairwise different, across growth *)
+Theorem count_is_live_entries : forall b (ops : list (sop K V)),
+  gcnt K V (gfinal K V eqb hash upd b ops) = N.of_nat (length (afinal' K V eqb ops)) /\
+  kuniq K eqb (map fst (afinal' K V eqb ops)).
+Proof.
+  intros. destruct (R_gfinal K V eqb hash upd eqb_sym eqb_trans hash_eqb b ops) as (_ & _ & H1 & H2). auto.
+Qed.
+End Layer2.
+
+Print Assumptions reachable_invariant.
+Print Assumptions grow_preserves_abs.
+Print Assumptions evacuate_preserves_abs.
+Print Assumptions growWork_preserves_abs.
+Print Assumptions hmap_refines_fmap.
+Print Assumptions count_is_live_entries.
+
+(* the layer-2 refinement for the key equality / hash of the correspondence harness *)
+Theorem hmap_refines_fmap_harness_keys : forall upd b (ops : list (sop N N)),
+  grun N N keq shash upd (gempty N N b) ops = arun N N keq [] ops.
+Proof. intros. apply (hmap_refines_fmap N N keq shash upd keq_sym keq_trans shash_keq). Qed.
+Print Assumptions hmap_refines_fmap_harness_keys.
+
+(* non-trivial: 26 keys from B = 0 (three doublings, the last evacuation still in progress at
+   the end: B = 3, growing), lookups of keys in evacuated and not yet evacuated buckets, delete *)
+Example layer2_nontrivial :
+  let ins := map (fun i => SSet N N (N.of_nat i * 4) (N.of_nat i)) (seq 0 26) in
+  let ops := ins ++ [SGet N N 8; SDel N N 8; SGet N N 8; SGet N N 100; SGet N N 12; SLen N N] in
+  let m := gfinal N N keq shash false 0 ins in
+  (gB N N m, growing N N m, skipn 26 (grun N N keq shash false (gempty N N 0) ops))
+  = (3, true, [RGet N (Some 2); RUnit N; RGet N None; RGet N (Some 25); RGet N (Some 3); RLen N 25]).
+Proof. vm_compute. reflexivity. Qed.
 
 (* the hypotheses are satisfiable: the key equality / hash of the correspondence harness
    (NaN-like keys never equal, a variant bit ignored) *)
